@@ -140,6 +140,24 @@ def run(chk):
         ("quasisep * scalar", lambda: kern * 2.0, None),
         ("sum([quasisep, quasisep])", lambda: sum([kern, kern]), None),
     ]
+    # non-scalar constants against EVERY kind of kernel expression (plain, already scaled, sums, products; quasiseparable and general),
+    # on either side, for * and +, eager and with the constant traced under jit: always ValueError, never a silently broadcast value
+    from tinygp.kernels import quasisep as _qs17
+    qbase = _qs17.Matern32(jnp.asarray(1.0))
+    gbase = kernels.Matern32(jnp.asarray(1.0))
+    exprs17 = [("quasisep", qbase), ("scalar * quasisep", 2.0 * qbase), ("quasisep * scalar", qbase * 2.0), ("scaled twice", 0.5 * (2.0 * qbase)),
+               ("quasisep sum", qbase + _qs17.Exp(jnp.asarray(0.7))), ("quasisep product", qbase * _qs17.Exp(jnp.asarray(0.7))),
+               ("scaled Matern52", 3.0 * _qs17.Matern52(jnp.asarray(1.2))), ("scaled Exp", 3.0 * _qs17.Exp(jnp.asarray(1.2))),
+               ("general", gbase), ("scalar * general", 2.0 * gbase), ("general sum", gbase + kernels.Exp(jnp.asarray(0.7))),
+               ("general product", gbase * kernels.Exp(jnp.asarray(0.7)))]
+    for ename, kexpr in exprs17:
+        for cshape in ((1,), (2,), (3,), (2, 2), (3, 3)):
+            cst = jnp.full(cshape, 1.5)
+            for opname, build in (("k * c", lambda k, c: k * c), ("c * k", lambda k, c: c * k)) + \
+                    ((("k + c", lambda k, c: k + c), ("c + k", lambda k, c: c + k)) if ename.startswith(("general", "scalar * general")) else ()):
+                table.append((f"non-scalar constant {cshape}: {opname} with k = {ename}", (lambda k=kexpr, c=cst, b=build: b(k, c)(x, x)), "ValueError"))
+            table.append((f"non-scalar traced constant {cshape}: k * c under jit with k = {ename}",
+                          (lambda k=kexpr, c=cst: jax.jit(lambda cc: (k * cc)(x, x))(c)), "ValueError"))
     for name, f, want in table:
         got = raised(f)
         hist["table"] = hist.get("table", 0) + 1
@@ -153,7 +171,7 @@ def run(chk):
     chk.cov["distinct_nontrivial"] = len(distinct)
     chk.cov["rule"] = (f"every vector of length <= {maxlen} built from 0..n-1 with one adjacent inversion at each position (also a 1e-9 inversion), "
                        "descending, sorted, sorted with ties, all equal, plus random small-integer vectors; each eager, under jit and with assume_sorted; "
-                       "vmap with one unsorted row; structured (time,label) coordinates; 31-row table of the other documented errors (incl. partial leaf mismatches of a structured X_test); "
+                       "vmap with one unsorted row; structured (time,label) coordinates; table of the other documented errors (rows counted in the histogram) (incl. partial leaf mismatches of a structured X_test); "
                        "distinct = different coordinate vectors")
     chk.cov["input_histogram"] = hist
     chk.cov["samples"] = [expect[3][0], expect[-1][0]]
